@@ -483,15 +483,40 @@ def run(ctx):
     rets = [n for n in dcfg.stmt_nodes() if isinstance(n.ast, ast.Return)]
     loops = [n for n in dcfg.stmt_nodes() if n.kind == "for"]
     good_loop = None
+    why = "no loop over the dotted parts descends the tree"
     for ln in loops:
-        for sub in ln.ast.body:
-            if isinstance(sub, ast.If) and isinstance(sub.test, ast.Compare) and isinstance(sub.test.ops[0], ast.NotIn) \
-                    and all_paths_raise(dcfg, sub.body):
-                good_loop = ln
+        lp = ln.ast
+        if not (isinstance(lp.target, ast.Name) and isinstance(lp.iter, ast.Call) and isinstance(lp.iter.func, ast.Attribute) and lp.iter.func.attr == "split"):
+            continue
+        pv = lp.target.id
+        # the descent step: T = T[part]
+        desc = [st for st in ast.walk(lp) if isinstance(st, ast.Assign) and len(st.targets) == 1 and isinstance(st.targets[0], ast.Name) and isinstance(st.value, ast.Subscript)
+                and norm(st.value.value) == st.targets[0].id and norm(st.value.slice) == pv]
+        if len(desc) != 1:
+            continue
+        dnode = dcfg.node_of(desc[0])
+        tvar = desc[0].targets[0].id
+        guarded = logic.implies(logic.facts_as_premises(dcfg.facts_at(dnode.id)), logic.parse(f"{pv} in {tvar}"))
+        body_ids = {dcfg.node_of(x).id for st in lp.body for x in ast.walk(st) if isinstance(x, ast.stmt) and dcfg.node_of(x) is not None}
+        # every iteration that comes back to the loop header (or leaves the loop normally) has descended
+        skips = any(s_ in body_ids and s_ != dnode.id and ln.id in dcfg.reachable(s_, avoid=lambda n: n.id == dnode.id) for s_, _ in dcfg.succ[ln.id])
+        # the loop is left only through its header: no `break` hands out a partially walked path
+        early = any(rn.id in dcfg.reachable(b, avoid=lambda n: n.id == ln.id) for b in body_ids for rn in rets)
+        init = [dcfg.nodes[d].ast for d in dcfg.reaching_defs(tvar).get(ln.id, set()) if d not in body_ids and dcfg.nodes[d].ast is not None]
+        from_tree = bool(init) and all(isinstance(a, ast.Assign) and norm(a.value) == "WHITELIST_TREE" for a in init)
+        if guarded and not skips and not early and from_tree:
+            good_loop = ln
+            walked = norm(lp.iter.func.value)
+        else:
+            why = "; ".join(w for w, c in (("the descent is not guarded by `part in tree`", not guarded), ("an iteration can continue without descending", skips),
+                                          ("the loop can be left early", early), ("the walk does not start from WHITELIST_TREE", not from_tree)) if c)
     for rn in rets:
         ctx.check(good_loop is not None and dcfg.dominates(good_loop.id, rn.id), "R6.4",
-                  "DynamicFieldtypeModule.__getattr__:return", "a child module object is returned without walking WHITELIST_TREE",
+                  "DynamicFieldtypeModule.__getattr__:return", f"a child module object is returned without walking WHITELIST_TREE ({why})",
                   rn.ast, "the WHITELIST_TREE walk (raise on unknown part) dominates the return")
+        if good_loop is not None and isinstance(rn.ast.value, ast.Call) and rn.ast.value.args:
+            ctx.check(norm(rn.ast.value.args[0]) == walked, "R6.4", "DynamicFieldtypeModule.__getattr__:child-path", f"the child is built for `{norm(rn.ast.value.args[0])}`, the walk validated `{walked}`",
+                      rn.ast, "the child module carries exactly the path that was walked")
     tree_reads = [n for n in ast.walk(dga) if isinstance(n, ast.Name) and n.id == "WHITELIST_TREE"]
     ctx.check(bool(tree_reads), "R6.4", "DynamicFieldtypeModule.__getattr__:tree", "WHITELIST_TREE is no longer consulted", dga,
               "walk starts from WHITELIST_TREE")
